@@ -117,19 +117,30 @@ pub const LC_XPOW: [[u8; 8]; 16] = {
     t
 };
 
-/// The same l with every product expanded by distributivity over the bits of a_j = sum_i a_{j,i} x^i:
-/// c_j * a_j = sum_i a_{j,i} (c_j * x^i).  (Equal to `l_func_plain` -- checked exhaustively by the native validation;
-/// this form costs the symbolic execution 128 mask-and-xor steps instead of 240 loop iterations with branches.)
+/// all ones iff bit i of v is set
+const fn bit_mask(v: u8, i: u32) -> u8 {
+    0u8.wrapping_sub((v >> i) & 1)
+}
+/// c_j * v for the j-th coefficient of l, expanded by distributivity over the bits of v = sum_i v_i x^i:
+/// c_j * v = sum_i v_i (c_j * x^i).  Branch-free and loop-free (cheap for the symbolic execution; equal to
+/// gf_mul(LC[j], v) -- checked exhaustively by the native validation).
+pub const fn mul_lc(j: usize, v: u8) -> u8 {
+    let t = &LC_XPOW[j];
+    (t[0] & bit_mask(v, 0))
+        ^ (t[1] & bit_mask(v, 1))
+        ^ (t[2] & bit_mask(v, 2))
+        ^ (t[3] & bit_mask(v, 3))
+        ^ (t[4] & bit_mask(v, 4))
+        ^ (t[5] & bit_mask(v, 5))
+        ^ (t[6] & bit_mask(v, 6))
+        ^ (t[7] & bit_mask(v, 7))
+}
+/// l(a15, ..., a0) = sum_j c_j * a_j, accumulated in the order a15, a14, ..., a0.
 pub const fn l_func(a: &Block) -> u8 {
     let mut x = 0u8;
     let mut j = 0;
     while j < 16 {
-        let mut i = 0;
-        while i < 8 {
-            let m = 0u8.wrapping_sub((a[j] >> i) & 1); // all ones iff bit i of a_j is set
-            x ^= LC_XPOW[j][i] & m;
-            i += 1;
-        }
+        x ^= mul_lc(j, a[j]);
         j += 1;
     }
     x
@@ -158,9 +169,7 @@ pub const fn r_inv(a: &Block) -> Block {
     t[15] = x;
     t
 }
-/// L = R^16 and L^-1 = (R^-1)^16, octet by octet as the standard writes them (used by the native validation to
-/// cross-check the word formulation below).
-pub const fn l_octets(a: &Block) -> Block {
+pub const fn l(a: &Block) -> Block {
     let mut v = *a;
     let mut i = 0;
     while i < 16 {
@@ -169,7 +178,7 @@ pub const fn l_octets(a: &Block) -> Block {
     }
     v
 }
-pub const fn l_inv_octets(a: &Block) -> Block {
+pub const fn l_inv(a: &Block) -> Block {
     let mut v = *a;
     let mut i = 0;
     while i < 16 {
@@ -177,79 +186,6 @@ pub const fn l_inv_octets(a: &Block) -> Block {
         i += 1;
     }
     v
-}
-
-// ---- the same maps on the 128-bit word a = a15 || ... || a0 read as a number (a15 most significant).
-// l is GF(2)-linear in the 128 bits of a, so bit k of l(a) is the parity of (a AND M_k) for a constant mask M_k:
-// bit 8 (15 - j) + i of M_k is bit k of c_j * x^i.  The masks are computed from the field definition (LC_XPOW).
-// This costs the symbolic execution ~90 word operations per R instead of ~1000 octet operations.
-
-pub const L_MASK: [u128; 8] = {
-    let mut m = [0u128; 8];
-    let mut k = 0;
-    while k < 8 {
-        let mut j = 0;
-        while j < 16 {
-            let mut i = 0;
-            while i < 8 {
-                if (LC_XPOW[j][i] >> k) & 1 == 1 {
-                    m[k] |= 1u128 << (8 * (15 - j) + i);
-                }
-                i += 1;
-            }
-            j += 1;
-        }
-        k += 1;
-    }
-    m
-};
-/// XOR of all 128 bits.
-pub const fn parity128(x: u128) -> u128 {
-    let x = x ^ (x >> 64);
-    let x = x ^ (x >> 32);
-    let x = x ^ (x >> 16);
-    let x = x ^ (x >> 8);
-    let x = x ^ (x >> 4);
-    let x = x ^ (x >> 2);
-    let x = x ^ (x >> 1);
-    x & 1
-}
-pub const fn l_func_word(a: u128) -> u128 {
-    (parity128(a & L_MASK[0]))
-        | (parity128(a & L_MASK[1]) << 1)
-        | (parity128(a & L_MASK[2]) << 2)
-        | (parity128(a & L_MASK[3]) << 3)
-        | (parity128(a & L_MASK[4]) << 4)
-        | (parity128(a & L_MASK[5]) << 5)
-        | (parity128(a & L_MASK[6]) << 6)
-        | (parity128(a & L_MASK[7]) << 7)
-}
-/// R(a15 || ... || a0) = l(a) || a15 || ... || a1
-pub const fn r_word(a: u128) -> u128 {
-    (l_func_word(a) << 120) | (a >> 8)
-}
-/// R^-1(a15 || ... || a0) = a14 || ... || a0 || l(a14, ..., a0, a15)
-pub const fn r_inv_word(a: u128) -> u128 {
-    let t = (a << 8) | (a >> 120);
-    (t & !0xFFu128) | l_func_word(t)
-}
-pub const fn l(a: &Block) -> Block {
-    let mut v = u128::from_be_bytes(*a);
-    let mut i = 0;
-    while i < 16 {
-        v = r_word(v);
-        i += 1;
-    }
-    v.to_be_bytes()
-}
-pub const fn l_inv(a: &Block) -> Block {
-    let mut v = u128::from_be_bytes(*a);
-    let mut i = 0;
-    while i < 16 {
-        v = r_inv_word(v);
-        i += 1;
-    }
-    v.to_be_bytes()
 }
 pub fn x(k: &Block, a: &Block) -> Block {
     let mut o = [0u8; 16];
